@@ -53,10 +53,78 @@ def gen_tspec(r, collide=True):
     return tspec
 
 
+SRC_TEXT = "Joe wartete schon lange auf den Zug."
+
+
+def build_cas(cassis, ts, cspec):
+    """scen.build_cas; when the scenario names structures that are taken over from another CAS (cspec["prior"]: pairs
+    [label, index of a view of the source CAS]) the same steps with one more in between: a source CAS over the same type
+    system with cspec["src_views"] views is created, and each such structure is created the way a user creates an annotation
+    (no sofa given), indexed in its view of the source CAS with the public add (which gives it the sofa of that view and
+    reserves its id there) and only then added to the view of the CAS under test the scenario names.  Cas.add assigns the
+    sofa of the view the structure is added to, so the CAS under test is the one scen.build_cas builds."""
+    prior = {l: k for l, k in cspec.get("prior") or []}
+    if not prior:
+        return scen.build_cas(cassis, ts, cspec)
+    cas = cassis.Cas(typesystem=ts)
+    views = []
+    for i, v in enumerate(cspec["views"]):
+        view = cas if i == 0 else cas.create_view(v["name"])
+        if v.get("text0") is not None and v.get("text") is not None:
+            view.sofa_string = "".join(chr(c) for c in v["text0"])
+        if v.get("text") is not None:
+            view.sofa_string = "".join(chr(c) for c in v["text"])
+        if v.get("mime") is not None:
+            view.sofa_mime = v["mime"]
+        views.append(view)
+    vname = {v["name"]: views[i] for i, v in enumerate(cspec["views"])}
+    src = cassis.Cas(typesystem=ts)
+    src_views = []
+    for i in range(cspec["src_views"]):
+        names = [v["name"] for v in cspec["views"]]
+        view = src if i == 0 else src.create_view(names[i] if i < len(names) else "translation%d" % i)
+        view.sofa_string = SRC_TEXT
+        src_views.append(view)
+    objs = {}
+    for o in cspec["objs"]:
+        kw = {}
+        if o.get("id") is not None:
+            kw["xmiID"] = o["id"]
+        objs[o["o"]] = ts.get_type(o["type"])(**kw)
+
+    def conv(v):
+        if v is None:
+            return None
+        for k in ("i", "b", "s"):
+            if k in v:
+                return v[k]
+        if "f" in v:
+            return scen.unfl(v["f"])
+        if "ref" in v:
+            return objs[v["ref"]]
+        if "list" in v:
+            return [conv(e) for e in v["list"]]
+        if "sofa" in v:
+            return vname[v["sofa"]].get_sofa()
+        raise ValueError(v)
+
+    for o in cspec["objs"]:
+        for k, v in o["slots"].items():
+            if o["o"] in prior and v is not None and "sofa" in v:
+                continue                      # the sofa comes from the views the structure is added to
+            setattr(objs[o["o"]], k, conv(v))
+    for o in cspec["objs"]:
+        if o["o"] in prior:
+            src_views[prior[o["o"]]].add(objs[o["o"]])
+    for vi, lab in cspec["members"]:
+        views[vi].add(objs[lab], keep_id=True)
+    return cas, views, objs
+
+
 def build(cassis, sc):
     """scen.build_cas plus the sofa knobs of this module: views may carry "uri" and "array" (label of a ByteArray object)."""
     ts = scen.build_ts(cassis, sc["ts"])
-    cas, views, objs = scen.build_cas(cassis, ts, sc["cas"])
+    cas, views, objs = build_cas(cassis, ts, sc["cas"])
     for i, v in enumerate(sc["cas"]["views"]):
         if v.get("uri") is not None:
             views[i].sofa_uri = v["uri"]
@@ -314,16 +382,147 @@ def collections_as_targets(r, cassis, tspec, cspec, above=None, schema=None):
     return placed
 
 
+# ------------------------------------------------------------------------------------------------ fourth-wave widening
+# Two more families of CAS graphs of the quantifier that the generators never produced (C04 and its JSON half):
+#  * explicit ids at the edge of the id generator (clause "all ids are distinct"): the ids of the indexed structures are not
+#    scattered over a wide range but sit, as in a CAS whose structures were numbered by another CAS, right above the sofa ids,
+#    the largest of them being added exactly when it is the id the generator would hand out next (sometimes one above),
+#    while something still draws a fresh id during the save: the byte array of a sofa that has no id and is neither indexed
+#    nor referenced, structures that are only reachable and have no id;
+#  * structures taken over from another CAS (clause "every ... sofa reference and view member resolves inside the
+#    document"): an indexed structure was created without a sofa, indexed in a view of a second CAS - mostly a view whose
+#    sofa has an xmi:id no sofa of the CAS under test has - and is then added to its view of the CAS under test.
+
+
+def _member_order(cspec):
+    order = []
+    for _v, l in cspec["members"]:
+        if l not in order:
+            order.append(l)
+    return order
+
+
+def _referenced(cspec):
+    out = set()
+
+    def refs(v):
+        if v is None:
+            return
+        if "ref" in v:
+            out.add(v["ref"])
+        for e in v.get("list", []):
+            refs(e)
+
+    for o in cspec["objs"]:
+        for v in o["slots"].values():
+            refs(v)
+    return out
+
+
+def idless_sofa_array(r, cspec):
+    """Makes sure some sofa holds a byte array that gets its id only while the document is written (no id, not indexed, not
+    referenced): takes the id from such an array if there is one, else gives a view that has no array a new one.  Returns
+    what it did."""
+    objs, views = cspec["objs"], cspec["views"]
+    by = {o["o"]: o for o in objs}
+    busy = {l for _v, l in cspec["members"]} | _referenced(cspec)
+    private = [v["array"] for v in views if v.get("array") is not None and v["array"] not in busy]
+    if private:
+        if all(by[a]["id"] is not None for a in private):
+            by[r.choice(private)]["id"] = None
+            return "id removed"
+        return "present"
+    free = [v for v in views if v.get("array") is None]
+    if not free:
+        return None
+    lab = max(o["o"] for o in objs) + 1
+    objs.append({"o": lab, "type": T + "ByteArray", "id": None,
+                 "slots": {"elements": {"list": [{"i": r.choice([0, 1, 127, 128, 255])} for _ in range(r.choice([0, 1, 3]))]}}})
+    r.choice(free)["array"] = lab
+    return "added"
+
+
+def edge_ids(r, cspec):
+    """Renumbers the explicit ids (which structure carries which id; nothing else changes): they become the dense block right
+    above the sofa ids.  `last`: the largest id belongs to an indexed structure that is added right after the second largest
+    has been reserved, i.e. when it is the very id the generator would hand out next; the other ids are shuffled.  `dense`:
+    every indexed structure is added with exactly the next id (ids in add order); structures that are not indexed then carry
+    no id, because no id below the generator is left.  Now and then the last id is one above the edge.  All explicit ids stay
+    distinct, apart from the sofa ids and below the generator (ASSUMPTIONS).  Returns a description, or None when the
+    scenario was left alone."""
+    objs, nviews = cspec["objs"], len(cspec["views"])
+    by = {o["o"]: o for o in objs}
+    order = _member_order(cspec)
+    if not order or any(by[l]["id"] is None for l in order):
+        return None
+    consumer = idless_sofa_array(r, cspec)
+    explicit = [o for o in objs if o["id"] is not None]
+    above = 1 if r.random() < 0.15 else 0
+    if len(order) == 1 or r.random() < 0.35:
+        for o in explicit:
+            o["id"] = None
+        for k, l in enumerate(order):
+            by[l]["id"] = nviews + 1 + k + (above if k == len(order) - 1 else 0)
+        return {"mode": "dense", "above": above, "sofa_array": consumer}
+    j = r.randrange(1, len(order))
+    i = r.randrange(0, j)
+    top = nviews + len(explicit)
+    rest = list(range(nviews + 1, top - 1))
+    r.shuffle(rest)
+    for o in explicit:
+        if o["o"] == order[j]:
+            o["id"] = top + above
+        elif o["o"] == order[i]:
+            o["id"] = top - 1
+        else:
+            o["id"] = rest.pop()
+    return {"mode": "last", "above": above, "sofa_array": consumer}
+
+
+def taken_over(r, cspec, explicit_only=True):
+    """Marks indexed structures as taken over from another CAS (see build_cas): structures that are indexed in exactly one
+    view and, if they carry a sofa, carry the sofa of that view.  The source CAS has one or two views more than the CAS under
+    test; four times out of five the structure comes from one of these additional views.  Returns the number marked."""
+    by = {o["o"]: o for o in cspec["objs"]}
+    nviews = len(cspec["views"])
+    count = {}
+    for vi, l in cspec["members"]:
+        count.setdefault(l, []).append(vi)
+    cand = []
+    for l, vs in count.items():
+        o = by[l]
+        so = o["slots"].get("sofa")
+        if len(vs) != 1 or (explicit_only and o["id"] is None):
+            continue
+        if so is not None and so.get("sofa") != cspec["views"][vs[0]]["name"]:
+            continue
+        cand.append(l)
+    if not cand:
+        return 0
+    total = nviews + r.choice([1, 1, 2])
+    prior = []
+    for l in cand:
+        if r.random() < 0.6 or not prior:
+            prior.append([l, r.randrange(nviews, total) if r.random() < 0.8 else r.randrange(0, nviews)])
+    cspec["prior"], cspec["src_views"] = prior, total
+    return len(prior)
+
+
 def widen(seed, cassis, sc):
     """C04's post-processing of a gen_scenario result; every choice from its own streams so that the rest of the scenario is
     what it was before (and the earlier catches with it)."""
     import random
     r1, r2 = random.Random(seed ^ 0x5A3E), random.Random(seed ^ 0xC011)
+    r3, r4 = random.Random(seed ^ 0xED6E), random.Random(seed ^ 0x7A4E)
     sc["knobs"] = {}
     if r1.random() < 0.4:
         sc["knobs"]["same_name"] = same_name_features(r1, cassis, sc["ts"], sc["cas"])
     if r2.random() < 0.45:
         sc["knobs"]["coll_targets"] = collections_as_targets(r2, cassis, sc["ts"], sc["cas"])
+    if r3.random() < 0.25:
+        sc["knobs"]["edge_ids"] = edge_ids(r3, sc["cas"])
+    if r4.random() < 0.3:
+        sc["knobs"]["taken_over"] = taken_over(r4, sc["cas"])
     return sc
 
 
@@ -436,6 +635,12 @@ def utf16_offset(text, cp):
     return sum(2 if c > 0xFFFF else 1 for c in text[:cp])
 
 
+def duplicate_ids(doc):
+    ids = [xmlabs.attr(e, "xmi:id") for e in doc["elems"] if xmlabs.kind(e) != "View"]
+    dup = sorted({i for i in ids if ids.count(i) > 1})
+    return f"xmi:id used twice: {dup[:5]}" if dup else None
+
+
 def check_closed(doc, cc):
     """every id once, every reference resolves, each reachable FS exactly once, nothing else, namespace = own package."""
     ids, sofa_ids, fs_elems = [], set(), {}
@@ -471,6 +676,13 @@ def check_closed(doc, cc):
             return f"id {i} of type {d['type']} written as {{{e['ns']}}}{e['tag']}, expected {{{ns}}}{tag}"
     if {s["id"] for s in cc["sofas"]} != sofa_ids:
         return f"sofa elements {sorted(sofa_ids)} but the CAS has sofas {[s['id'] for s in cc['sofas']]}"
+    for i, d in cc["fs"].items():
+        for xn, v in d["feats"].items():
+            if v is not None and v[0] == "sofa":
+                got = xmlabs.attr(fs_elems[int(i)][0], xn)
+                if v[1] not in sofa_ids or got != str(v[1]):
+                    return (f"sofa reference: id {i} ({d['type']}) carries the sofa with id {v[1]}, written {xn}={got!r}; "
+                            f"the sofas of the document are {sorted(sofa_ids)}")
     views = [e for e in doc["elems"] if xmlabs.kind(e) == "View"]
     seen = set()
     for v in views:
@@ -639,6 +851,10 @@ def shrink_candidates(sc):
                 del c["cas"]["objs"][i]["slots"]["elements"]["list"][j]
                 yield c
     used_types = {o["type"] for o in cs["objs"]}
+    for i in range(len(cs.get("prior") or [])):
+        c = copy.deepcopy(sc)
+        del c["cas"]["prior"][i]
+        yield c
     for i, t in enumerate(sc["ts"]):
         if t["name"] in used_types or any(u["super"] == t["name"] for u in sc["ts"]):
             continue
